@@ -50,6 +50,15 @@ CHECKS.update({
               note="reference interpreter mc/refstl.py gated by hand examples, glibc iconv ISO 6937 tables and the repository's own pinned expectations; areas where Tech 3264 is silent are not asserted (listed in the module)", ref="3/C09"),
 })
 
+CHECKS.update({
+  "C06": dict(cat="exploration", tech="bounded-exhaustive enumeration of (document, writer configuration) pairs; writer output parsed by an independent strict parser and compared as a function of time with a reference cue timeline (R_isd)",
+              text="every document of the structure (regions x div layouts x br x timings), nested-style, markup-significant text, millisecond/sub-millisecond/unbounded interval, ruby and alignment families under SRT {text_formatting} and VTT {line_position, text_align, cue_id}^3: at every admissible probe time the lines of the cues covering it equal the visible text of the reference; cue boundaries are rounded significant times; unbounded last interval ends at begin + 10 s",
+              note="reference timeline from mc/ref_isd.py; strict parsers mc/strictparse.py; white-space normalised comparison; half-millisecond ties may round either way", ref="3/C06"),
+  "C07": dict(cat="exploration", tech="bounded-exhaustive enumeration (same families as C06); strict grammar parse plus per-character comparison of effective tags with R_style, cue settings with reference geometry",
+              text="every output parses under the strict grammar, numbering consecutive, cues ordered/non-overlapping, per character bold/italic/underline/colour/background in effect equal the computed styles, no tags when disabled, line/align settings agree with reference region position and paragraph alignment, writer never raises",
+              note="colour and background are compared as the value in effect (innermost colour tag; nearest enclosing painted span background); SRT text that looks like markup is not generated for tag clauses (no escape mechanism)", ref="3/C07"),
+})
+
 PENDING = {}
 
 
